@@ -53,7 +53,7 @@ def run : List String → Option String
     some (if reencodes b off o then "true" else "false")
   | ["steps", o, off, h] => do
     let o ← parseOrder o; let off ← parseNat off; let b ← bytesOfHex h
-    some (toString (walkSteps b o (off + 12)))
+    some (toString (parseRiffSteps b off o))
   | ["byoff", o, off, h, q] => do
     let o ← parseOrder o; let off ← parseNat off; let b ← bytesOfHex h; let q ← parseInt q
     some (rJ Chunk.toJ ((parseRiff b off o).bind fun cs => getByOffset cs q))
